@@ -243,7 +243,9 @@ func isXMLSpace(r rune) bool { return r == ' ' || r == '\t' || r == '\r' || r ==
 // is binary and substring ternary there).
 var CoreArity = map[string]int{"boolean": 1, "ceiling": 1, "concat": 2, "contains": 2, "false": 0, "floor": 1,
 	"normalize-space": 1, "not": 1, "number": 1, "round": 1, "starts-with": 2, "string": 1, "string-length": 1,
-	"substring": 3, "substring-after": 2, "substring-before": 2, "translate": 3, "true": 0}
+	"substring": 3, "substring-after": 2, "substring-before": 2, "translate": 3, "true": 0,
+	// outside every predicate the context is the context node alone: position 1 of 1 (XPath 1.0 section 1; RFC 6020 6.4.1)
+	"position": 0, "last": 0}
 
 func callCore(name string, a []Value) (Value, error) {
 	want, ok := CoreArity[name]
@@ -260,6 +262,8 @@ func callCore(name string, a []Value) (Value, error) {
 		return Bool(!ToBool(a[0])), nil
 	case "true":
 		return Bool(true), nil
+	case "position", "last":
+		return Num(1), nil
 	case "false":
 		return Bool(false), nil
 	case "number":
